@@ -365,32 +365,62 @@ type stateStore struct {
 
 func (c *Ctx) targetStateStores() []stateStore {
 	stateF := c.field("Target", "state")
+	isState := func(v ssa.Value) bool { return isLoadOfField(v, stateF) || isLoadOfField(resolve(v), stateF) }
 	var out []stateStore
 	for _, w := range c.writesOfField(stateF) {
 		st, ok := w.instr.(*ssa.Store)
 		if !ok {
 			continue
 		}
-		s := stateStore{fn: w.fn, instr: st}
-		s.val, s.constVal = constInt(st.Val)
-		// success parameter of the enclosing declared function, if any
 		of := outer(w.fn)
-		for _, p := range of.Params {
-			if p.Name() == "success" && types.Identical(p.Type(), types.Typ[types.Bool]) {
-				s.succT, s.succF = boolFacts(st, matchResolved(p))
-			}
+		// one (virtual) store per value the stored expression can take: `t.state = f(t.state, success)` with f a pure
+		// function that was inlined is a merge of constants, each under its own conditions
+		cases := []valCase{{st.Val, dominatingConds(st.Block())}}
+		if _, isK := constInt(st.Val); !isK && st.Val != ssa.Value(firstParamOrNil(of, 1)) {
+			cases = valueCases(st.Val, st.Block())
 		}
-		for _, f := range intFacts(st, matchFieldLoad(stateF)) {
-			switch f.op {
-			case token.EQL:
-				s.prevEq = append(s.prevEq, f.k)
-			case token.NEQ:
-				s.prevNeq = append(s.prevNeq, f.k)
+		for _, vc := range cases {
+			if len(cases) > 1 && isState(vc.val) {
+				continue // this outcome leaves the state as it is
 			}
+			s := stateStore{fn: w.fn, instr: st}
+			s.val, s.constVal = constInt(vc.val)
+			if s.constVal && len(cases) > 1 {
+				same := false
+				for _, f := range intFactsOf(vc.conds, isState) {
+					if f.op == token.EQL && f.k == s.val {
+						same = true
+					}
+				}
+				if same {
+					continue // writes back the value the state is known to have
+				}
+			}
+			// success parameter of the enclosing declared function, if any
+			for _, p := range of.Params {
+				if p.Name() == "success" && types.Identical(p.Type(), types.Typ[types.Bool]) {
+					s.succT, s.succF = boolFactsOf(vc.conds, matchResolved(p))
+				}
+			}
+			for _, f := range intFactsOf(vc.conds, isState) {
+				switch f.op {
+				case token.EQL:
+					s.prevEq = append(s.prevEq, f.k)
+				case token.NEQ:
+					s.prevNeq = append(s.prevNeq, f.k)
+				}
+			}
+			out = append(out, s)
 		}
-		out = append(out, s)
 	}
 	return out
+}
+
+func firstParamOrNil(fn *ssa.Function, i int) *ssa.Parameter {
+	if fn == nil || i >= len(fn.Params) {
+		return nil
+	}
+	return fn.Params[i]
 }
 
 // R01.4 a target is promoted only by a successful probe.
@@ -456,9 +486,9 @@ func r014(c *Ctx) {
 			nclose++
 			okOwner := outer(fn) == hcc
 			// the facts that license a release: success==true and state==adding
-			licensed := func(at ssa.Instruction) bool {
+			licensedOf := func(at ssa.Instruction, conds []condEdge) bool {
 				wasAdding := false
-				for _, f := range intFacts(at, matchFieldLoad(stateF)) {
+				for _, f := range intFactsOf(conds, func(v ssa.Value) bool { return isLoadOfField(v, stateF) || isLoadOfField(resolve(v), stateF) }) {
 					if f.op == token.EQL && f.k == adding {
 						wasAdding = true
 					}
@@ -466,11 +496,12 @@ func r014(c *Ctx) {
 				succT := false
 				for _, p := range outer(at.Parent()).Params {
 					if p.Name() == "success" {
-						succT, _ = boolFacts(at, matchResolved(p))
+						succT, _ = boolFactsOf(conds, matchResolved(p))
 					}
 				}
 				return wasAdding && succT
 			}
+			licensed := func(at ssa.Instruction) bool { return licensedOf(at, dominatingConds(at.Block())) }
 			ok = licensed(cs.instr)
 			how := "directly under success==true and state==adding"
 			if !ok {
@@ -483,13 +514,15 @@ func r014(c *Ctx) {
 					all := true
 					nTrue := 0
 					for _, st := range storesToCell(cell) {
-						b, isConst := constBool(st.Val)
-						switch {
-						case isConst && !b:
-						case isConst && b && licensed(st):
-							nTrue++
-						default:
-							all = false
+						for _, vc := range valueCases(st.Val, st.Block()) {
+							b, isConst := constBool(vc.val)
+							switch {
+							case isConst && !b:
+							case isConst && b && licensedOf(st, vc.conds):
+								nTrue++
+							default:
+								all = false
+							}
 						}
 					}
 					if all && nTrue >= 1 {
